@@ -191,7 +191,10 @@ def apalache(module, cinit, init, inv, length, name, timeout=900):
     cmd = ['apalache-mc', 'check', '--cinit=' + cinit, '--init=' + init, '--inv=' + inv, '--length=%d' % length,
            '--out-dir=' + os.path.join(wd, 'out'), os.path.join(SPEC, module + '.tla')]
     try:
-        p = subprocess.run(cmd, cwd=wd, capture_output=True, text=True, timeout=timeout)
+        jtmp = os.path.join(wd, 'jtmp')
+        os.makedirs(jtmp, exist_ok=True)
+        p = subprocess.run(cmd, cwd=wd, capture_output=True, text=True, timeout=timeout,
+                           env=dict(os.environ, JAVA_IO_TMPDIR=jtmp, TMPDIR=jtmp))
     except subprocess.TimeoutExpired:
         raise Machinery('Apalache timeout on %s (%s)' % (module, name))
     finally:
